@@ -306,7 +306,7 @@ func c17Jobs(tier string) []*SeqJob {
 		j.Replay = func(o []string) (string, string) { c, d, _, _ := exec(tt)(opIndex(alphabet, o)); return c, d }
 		jobs = append(jobs, j)
 	}
-	jobs = append(jobs, c17ConflictJob(tier))
+	jobs = append(jobs, c17ConflictJob(tier), c17PreregJob(tier))
 	return jobs
 }
 
@@ -542,4 +542,172 @@ func c17Scenarios(tier string) []*Scenario {
 	}
 	sc.Check = func(x *Run, o *rt.Outcome) (string, string, string) { return "", "", "ok" }
 	return []*Scenario{sc}
+}
+
+// c17PreregJob: vectors declared up front through RegisterCounter / RegisterGauge / RegisterTimer (the helpers that
+// attach a HELP text or per-timer buckets), with the label names given in EVERY order (all permutations of two and
+// of three names), then used through scopes whose tag values differ per key. Whatever the declared order, each value
+// must be exposed under the labels of the scope that recorded it, and the declared HELP text must be kept.
+func c17PreregJob(tier string) *SeqJob {
+	perms2 := [][]string{{"a", "b"}, {"b", "a"}}
+	perms3 := [][]string{{"a", "b", "c"}, {"a", "c", "b"}, {"b", "a", "c"}, {"b", "c", "a"}, {"c", "a", "b"}, {"c", "b", "a"}}
+	sets := map[string]map[int]map[string]string{
+		"x": {2: {"a": "1", "b": "2"}, 3: {"a": "1", "b": "2", "c": "3"}},
+		"y": {2: {"a": "2", "b": "1"}, 3: {"a": "3", "b": "1", "c": "2"}},
+	}
+	type op struct {
+		kind  string
+		arity int
+		set   string
+	}
+	var ops []op
+	var alphabet []string
+	for _, ar := range []int{2, 3} {
+		for _, set := range []string{"x", "y"} {
+			for _, kind := range []string{"inc", "gauge", "timer"} {
+				ops = append(ops, op{kind, ar, set})
+				alphabet = append(alphabet, fmt.Sprintf("%s %s%d", kind, set, ar))
+			}
+		}
+	}
+	ops = append(ops, op{kind: "pass"})
+	alphabet = append(alphabet, "pass")
+	type cfg struct {
+		p2, p3 int
+		tt     tprom.TimerType
+		// which kinds are declared up front (bit 0 counter, 1 gauge, 2 timer)
+		declared int
+	}
+	var cfgs []cfg
+	for p2 := range perms2 {
+		for p3 := range perms3 {
+			for _, tt := range []tprom.TimerType{tprom.SummaryTimerType, tprom.HistogramTimerType} {
+				cfgs = append(cfgs, cfg{p2, p3, tt, 7})
+			}
+		}
+	}
+	// partially declared: only one kind up front
+	for _, d := range []int{1, 2, 4} {
+		cfgs = append(cfgs, cfg{1, 5, tprom.SummaryTimerType, d}, cfg{1, 3, tprom.HistogramTimerType, d})
+	}
+	exec := func(c cfg) func(hist []int) (string, string, string, int) {
+		return func(hist []int) (cl, det, key string, steps int) {
+			cl, det = guard(func() (string, string) {
+				reg := prom.NewRegistry()
+				rep := tprom.NewReporter(tprom.Options{Registerer: reg, DefaultTimerType: c.tt})
+				help := map[string]string{}
+				for ar, perm := range map[int][]string{2: perms2[c.p2], 3: perms3[c.p3]} {
+					keys := append([]string{}, perm...)
+					if c.declared&1 != 0 {
+						n := fmt.Sprintf("pc%d", ar)
+						if _, err := rep.RegisterCounter(n, keys, "help of "+n); err != nil {
+							return "register-error", err.Error()
+						}
+						help[n] = "help of " + n
+					}
+					if c.declared&2 != 0 {
+						n := fmt.Sprintf("pg%d", ar)
+						if _, err := rep.RegisterGauge(n, keys, "help of "+n); err != nil {
+							return "register-error", err.Error()
+						}
+						help[n] = "help of " + n
+					}
+					if c.declared&4 != 0 {
+						n := fmt.Sprintf("pt%d", ar)
+						if _, err := rep.RegisterTimer(n, keys, "help of "+n, nil); err != nil {
+							return "register-error", err.Error()
+						}
+						help[n] = "help of " + n
+					}
+					for i := range keys {
+						if keys[i] != perm[i] {
+							return "caller-slice-modified", fmt.Sprintf("Register* reordered the caller's tag keys: %v -> %v", perm, keys)
+						}
+					}
+				}
+				so := tprom.DefaultSanitizerOpts
+				root, _ := tally.VerifNewRootScope(tally.ScopeOptions{CachedReporter: rep, Separator: tprom.DefaultSeparator, SanitizeOptions: &so, OmitCardinalityMetrics: true}, 0, 1)
+				m := newC17Model()
+				where := func() string {
+					return fmt.Sprintf("[declared %03b with label orders %v %v, timer type %v] after %v", c.declared, perms2[c.p2], perms3[c.p3], c.tt, histLabels(alphabet, hist))
+				}
+				check := func() (string, string) {
+					if cl, d := gatherCheck(reg, m, m.tcount); cl != "" {
+						return cl, where() + ": " + d
+					}
+					fams, _ := reg.Gather()
+					for _, f := range fams {
+						if h, ok := help[f.GetName()]; ok && f.GetHelp() != h {
+							return "declared-help-text-lost", fmt.Sprintf("%s: %s exposed with HELP %q, declared %q", where(), f.GetName(), f.GetHelp(), h)
+						}
+					}
+					return "", ""
+				}
+				gv := 1.0
+				for _, i := range hist {
+					o := ops[i]
+					steps++
+					if o.kind == "pass" {
+						tally.VerifReportOnce(root)
+						if cl, d := check(); cl != "" {
+							return cl, d
+						}
+						continue
+					}
+					tags := sets[o.set][o.arity]
+					s := root.Tagged(cloneTags(tags))
+					switch o.kind {
+					case "inc":
+						n := fmt.Sprintf("pc%d", o.arity)
+						s.Counter(n).Inc(int64(len(hist)) + 1)
+						m.counters[lbl(n, tags)] += float64(len(hist) + 1)
+					case "gauge":
+						n := fmt.Sprintf("pg%d", o.arity)
+						gv += 0.5
+						s.Gauge(n).Update(gv)
+						m.gauges[lbl(n, tags)] = gv
+					case "timer":
+						n := fmt.Sprintf("pt%d", o.arity)
+						s.Timer(n).Record(time.Second)
+						m.tcount[lbl(n, tags)]++
+					}
+				}
+				tally.VerifReportOnce(root)
+				steps++
+				if cl, d := check(); cl != "" {
+					return cl, d
+				}
+				key = fmt.Sprint(c, len(m.counters), len(m.gauges), m.tcount, keysOfF(m.counters), keysOfF(m.gauges))
+				return "", ""
+			})
+			return
+		}
+	}
+	depth := tierInt(tier, 3, 4)
+	j := &SeqJob{Property: "C17", Name: "preregistered-vectors-every-label-order", Shards: tierInt(tier, 4, 8)}
+	j.Run = func(ctx *SeqCtx) {
+		for i, c := range cfgs {
+			ctx.OpsPrefix = []string{fmt.Sprint(i)}
+			bfs(ctx, alphabet, depth, exec(c))
+			if ctx.viol != nil || ctx.st.TimedOut {
+				return
+			}
+		}
+	}
+	j.Replay = func(o []string) (string, string) {
+		var i int
+		fmt.Sscan(o[0], &i)
+		c, d, _, _ := exec(cfgs[i])(opIndex(alphabet, o[1:]))
+		return c, d
+	}
+	return j
+}
+
+func keysOfF(m map[string]float64) []string {
+	var ks []string
+	for k := range m {
+		ks = append(ks, k)
+	}
+	sort.Strings(ks)
+	return ks
 }
